@@ -12,6 +12,7 @@ from scipy.special import eval_legendre
 from scipy.ndimage import rotate, shift, gaussian_filter1d
 
 import abel
+from abel.tools.io import save_npy_atomic
 from abel import _deprecated, _deprecate
 
 ###############################################################################
@@ -604,7 +605,7 @@ def get_bs_cached(cols, basis_dir=None, legendre_orders=[0, 2],
 
     if basis_dir is not None:
         path_to_basis_file = os.path.join(basis_dir, basis_name)
-        np.save(path_to_basis_file, _basis)
+        save_npy_atomic(path_to_basis_file, _basis)
         if verbose:
             print("linbasex basis saved for later use to {}"
                   .format(path_to_basis_file))
